@@ -1946,6 +1946,12 @@ class Mailbox:
         - `flags`: A list of flags to set on this message
         - `date_time`: The internal date on this message
         """
+        # A `\Noselect` mailbox is only a placeholder for a deleted mailbox.
+        # It can not hold messages.
+        #
+        if r"\Noselect" in self.attributes:
+            raise No(f"You can not append to the mailbox '{self.name}'")
+
         # Make sure we convert the IMAP flags to the accepted mh sequences.
         #
         seqs = flags_to_seqs(flags)
@@ -2736,6 +2742,8 @@ class Mailbox:
 
             if dst_mbox.deleted:
                 raise Bad(f"'{dst_mbox.name}' has been deleted")
+            if r"\Noselect" in dst_mbox.attributes:
+                raise No(f"You can not copy to the mailbox '{dst_mbox.name}'")
 
             try:
                 wait_start = time.monotonic()
@@ -2998,7 +3006,9 @@ class Mailbox:
         await mbox.mailbox.aclear()
         mbox.num_msgs = 0
         mbox.num_recent = 0
+        mbox.msg_keys = []
         mbox.uids = []
+        mbox._rebuild_index_dicts()
         mbox.sequences = defaultdict(set)
 
         # If the mailbox has any active clients we set their selected
